@@ -1051,6 +1051,14 @@ def read_model(rd, rb, kr):
         if rb[0] == '0':
             return ('ok', None, 1, 0)
         return ('short',) if kr < 1 else ('ok', 'ref', 1, 1)
+    if k == 'dict':           # load_dict: the optional-reference framing of maybe_ref, then the referenced cell is parsed as a dictionary
+        if r < 1:
+            return ('short',)
+        if rb[0] == '0':
+            return ('ok', None, 1, 0)
+        # bit 1 without a reference left: must raise. With a reference: the cell is no dictionary - whether parsing it raises is not
+        # judged ('free'), only that nothing is un-consumed and later reads see the original data
+        return ('short',) if kr < 1 else ('free',)
     raise AssertionError(k)
 
 
@@ -1084,6 +1092,8 @@ def _do_read(s, rd):
         return s.load_ref()
     if k == 'maybe_ref':
         return s.load_maybe_ref()
+    if k == 'dict':
+        return s.load_dict(8)
     raise AssertionError(k)
 
 
@@ -1108,7 +1118,7 @@ def _value_same(rd, want, got, next_ref_bits):
         return isinstance(got, (bytes, bytearray)) and bytes(got) == want
     if k == 'string':
         return got == want
-    if k in ('ref', 'maybe_ref'):
+    if k in ('ref', 'maybe_ref', 'dict'):
         if want is None:
             return got is None
         return got is not None and hasattr(got, 'bits') and got.bits.to01() == next_ref_bits
@@ -1238,13 +1248,15 @@ def _sim_read(rd, rb, kr):
     v = read_model(rd, rb, kr)
     if v[0] == 'ok':
         return v, rb[v[2]:], kr - v[3]
+    if v[0] == 'free':
+        return v, rb[1:], kr - 1
     k = rd['op']
     head = 0
     if v[0] == 'short':
         if k in ('coins', 'var_uint', 'var_int'):
             bl = 4 if k == 'coins' else rd['bl']
             head = bl if len(rb) >= bl else 0
-        elif k == 'maybe_ref':
+        elif k in ('maybe_ref', 'dict'):
             head = 1 if rb else 0
         elif k == 'address' and len(rb) >= 2:
             head = 2 if rb[:2] == '00' else 11 if (rb[:2] == '01' and len(rb) >= 11) else 2
@@ -1335,6 +1347,9 @@ def _grid_reads(rb, kr, salt):
         seqs += [[{'op': 'var_uint', 'bl': bl}], [{'op': 'var_int', 'bl': bl}]]
     seqs.append([{'op': 'ref'}] * (kr + 1))
     seqs.append([{'op': 'maybe_ref'}] * (kr + 2))
+    # dictionary reads (maybe-ref framing) past the last reference, then plain reference reads: what was consumed stays consumed
+    seqs.append([{'op': 'dict'}] * (kr + 2) + [{'op': 'ref'}])
+    seqs.append([{'op': 'ref'}] * kr + [{'op': 'dict'}, {'op': 'ref'}, {'op': 'dict'}, {'op': 'maybe_ref'}, {'op': 'ref'}])
     return seqs
 
 
@@ -1453,7 +1468,7 @@ def _read_case(draw):
     for _ in range(draw(st.integers(1, 4))):
         r = len(rb)
         op = draw(st.sampled_from(['bits', 'skip', 'uint', 'int', 'bytes', 'string', 'bit', 'bool', 'coins', 'address', 'ref',
-                                   'ref', 'maybe_ref', 'var_uint', 'var_int']))
+                                   'ref', 'maybe_ref', 'var_uint', 'var_int', 'dict']))
         if op in ('bits', 'skip'):
             rd = {'op': op, 'n': draw(st.sampled_from([r + 1, r + 1, r, max(0, r - 1), r + 2, r + 8, 1024, 5000]))}
         elif op in ('uint', 'int'):
